@@ -31,6 +31,37 @@ type Engine struct {
 	ovFiles  map[string]string // virtual -> real path
 	LoadTime time.Duration
 	validationRuns int
+	fnNames  sync.Map
+	reachMu  sync.Mutex
+	reachSet map[string]bool
+}
+
+func (g *Engine) isReached(h, l string) bool {
+	g.reachMu.Lock()
+	defer g.reachMu.Unlock()
+	return g.reachSet[h+"|"+l]
+}
+
+func (g *Engine) setReached(h, l string) {
+	g.reachMu.Lock()
+	defer g.reachMu.Unlock()
+	if g.reachSet == nil {
+		g.reachSet = map[string]bool{}
+	}
+	g.reachSet[h+"|"+l] = true
+}
+
+// fnName is fn.String() (of the generic origin, if any), cached.
+func (g *Engine) fnName(fn *ssa.Function) string {
+	if v, ok := g.fnNames.Load(fn); ok {
+		return v.(string)
+	}
+	name := fn.String()
+	if fn.Origin() != nil {
+		name = fn.Origin().String()
+	}
+	g.fnNames.Store(fn, name)
+	return name
 }
 
 func (g *Engine) isRepoPkg(path string) bool {
@@ -356,6 +387,7 @@ type worker struct {
 	q, nsat, nunsat, nunk int
 	stime time.Duration
 	errs  []string
+	shared *sharedCaches
 }
 
 func (w *worker) retire() {
@@ -375,8 +407,13 @@ func (w *worker) retire() {
 func (g *Engine) runPath(w *worker, in Instance, script []int64, solverKind string, timeoutMs int) (res PathResult) {
 	if w.ctx == nil || w.paths > 300 || w.ctx.next > 3_000_000 {
 		w.retire()
+		w.shared = &sharedCaches{unsat: map[int][][]int{}}
 		w.ctx = NewCtx()
 		w.sol = NewSolver(w.ctx, solverKind, timeoutMs)
+		if lf := os.Getenv("GOSMT_SMTLOG"); lf != "" {
+			f, _ := os.Create(fmt.Sprintf("%s.%p", lf, w))
+			w.sol.Log = f
+		}
 		w.paths = 0
 	}
 	w.paths++
@@ -393,7 +430,11 @@ func (g *Engine) runPath(w *worker, in Instance, script []int64, solverKind stri
 	e := &Exec{eng: g, ctx: w.ctx, sol: w.sol, src: &decisionSrc{script: append([]int64{}, script...)},
 		globs: map[*ssa.Global]*Pointer{}, extErr: map[string]*IfaceV{}, symSeq: map[string]int{},
 		reached: map[string]bool{}, reachModel: map[string]map[string]uint64{}, notes: map[string]int{},
-		globalWr: map[string]bool{}, impure: map[*ssa.Function]bool{}, cfg: cfg, oblCache: map[int][][]int{}}
+		globalWr: map[string]bool{}, impure: map[*ssa.Function]bool{}, cfg: cfg, oblCache: map[int][][]int{}, hname: h.Name, shared: w.shared}
+	for _, pm := range w.shared.models {
+		pm.upTo, pm.dead = 0, false
+	}
+	e.models = w.shared.models
 	if cfg.Lazy {
 		e.lazy = 1
 	}
@@ -416,6 +457,14 @@ func (g *Engine) runPath(w *worker, in Instance, script []int64, solverKind stri
 				}
 			}
 		}
+		func() {
+			defer func() {
+				if r := recover(); r != nil {
+					res.crash = fmt.Sprintf("flush: %v", r)
+				}
+			}()
+			e.flushObligations()
+		}()
 		res.alts = e.src.alts
 		res.viol = e.viol
 		res.reached = e.reachModel
@@ -456,11 +505,21 @@ type RunOpts struct {
 	MaxViol   int
 	Verbose   bool
 	MaxPaths  int
+	InstFilter string
 }
 
 func (g *Engine) RunHarness(h *Harness, opts RunOpts) *HarnessResult {
 	t0 := time.Now()
 	insts := instances(h)
+	if opts.InstFilter != "" {
+		var keep []Instance
+		for _, in := range insts {
+			if strings.Contains(in.String(), opts.InstFilter) {
+				keep = append(keep, in)
+			}
+		}
+		insts = keep
+	}
 	hr := &HarnessResult{H: h, Instances: len(insts), Reached: map[string]map[string]uint64{}, ReachedInst: map[string]string{},
 		Notes: map[string]int{}, GlobalWrites: map[string]bool{}, Unsupported: map[string]int{}, Crashes: map[string]int{}, Ends: map[string]int{}}
 	var mu sync.Mutex
